@@ -40,7 +40,7 @@ SHARDS = {"quick": 16, "thorough": 16}
 EXHAUSTIVE = {"quick": True, "thorough": True}
 
 CFG = {"input": "UNMATCHED_INSTANCE", "matcher": {"kind": "naive", "metric": "IOU", "thr": 0.5}, "metrics": ["DSC", "IOU", "RVD"], "global": ["DSC"]}
-NAMES = ["s0", "s1", "s2", "s3", "s4", "s5", "subject_name"]
+NAMES = ["s0", "s1", "s2", "s3", "s4", "s5", "subject_name", "s10", "s", "s1 ", "case"]  # some are substrings / prefixes of others
 STATES = ["absent", "empty", "header_only", "header_rows"]
 VARIANTS = ["plain", "graceful", "threads", "noext", "depth2"]
 
@@ -53,8 +53,10 @@ def cases(tier, seed):
             yield {"fam": "crash", "state": st, "variant": var}
     for i in range(40 if tier == "quick" else 600):
         yield {"fam": "sessions", "i": i}
-    for i in range(45 if tier == "quick" else 450):
+    for i in range(72 if tier == "quick" else 720):
         yield {"fam": "siblings", "i": i}
+    for i in range(4 if tier == "quick" else 32):
+        yield {"fam": "hashseed", "i": i}
 
 
 def setup(ctx):
@@ -68,8 +70,8 @@ def subject_input(name):
     k = NAMES.index(name)
     refa = np.zeros(16, dtype=np.uint8)
     pred = np.zeros(16, dtype=np.uint8)
-    refa[1 : 5 + k] = 1
-    pred[2 : 5 + k] = 1
+    refa[1 : 2 + (5 + k) % 9] = 1
+    pred[2 : 3 + (5 + k) % 9] = 1
     refa[12:15] = 2
     pred[12 : 13 + (k % 3)] = 2
     return pred, refa
@@ -354,7 +356,7 @@ def siblings(ctx, i):
     r = gen.rng(ctx.seed, "c17sib", i)
     d = tempfile.mkdtemp(prefix="c17b_", dir=os.environ.get("VERIF_TMP"))
     n1, n2 = [("one.tsv", "two.tsv"), ("results.model_a.tsv", "results.model_b.tsv"), ("run.tsv", "run_2.tsv"), ("a.b.tsv", "a.tsv"),
-              ("model_a/results.tsv", "model_b/results.tsv")][(i // 3) % 5]
+              ("model_a/results.tsv", "model_b/results.tsv"), ("result.tsv", "results.tsv"), ("pred_t.tsv", "pred_v.tsv"), ("x.tsv", "xt.tsv")][(i // 3) % 8]
     one, two = os.path.join(d, n1), os.path.join(d, n2)
     for pth in (one, two):
         os.makedirs(os.path.dirname(pth), exist_ok=True)
@@ -419,8 +421,80 @@ def siblings(ctx, i):
         judge_file(ctx, two, sorted(set(subs2)), dict(det, file=n2), feats)
 
 
+HASHSEED_SCRIPT = r"""
+import os, sys, json
+import numpy as np
+from panoptica import Panoptica_Evaluator, Panoptica_Aggregator, InputType, NaiveThresholdMatching
+from panoptica.utils.segmentation_class import SegmentationClassGroups, LabelGroup
+path, subjects, kill_after = sys.argv[1], json.loads(sys.argv[2]), int(sys.argv[3])
+groups = SegmentationClassGroups({"liver": LabelGroup([1]), "kidney": LabelGroup([2]), "spleen": LabelGroup([3]), "aorta": LabelGroup([4])})
+ev = Panoptica_Evaluator(expected_input=InputType.UNMATCHED_INSTANCE, instance_matcher=NaiveThresholdMatching(), segmentation_class_groups=groups)
+agg = Panoptica_Aggregator(ev, path)
+for n, s in enumerate(subjects):
+    if n == kill_after:
+        os._exit(137)
+    k = sum(map(ord, s)) % 5
+    ref = np.zeros(24, np.uint8); pred = np.zeros(24, np.uint8)
+    for g in range(4):
+        ref[6 * g : 6 * g + 4] = g + 1
+        pred[6 * g + (g + k) % 2 : 6 * g + 4] = g + 1
+    agg.evaluate(pred, ref, s)
+"""
+
+
+def hashseed_sessions(ctx, i):
+    """a session killed half way and restarted in a NEW interpreter with another string hash seed (several
+    groups, so that anything ordered by a set / dict of names would differ between the two processes)"""
+    import subprocess
+
+    from vf import harness
+
+    d = tempfile.mkdtemp(prefix="c17hs_", dir=os.environ.get("VERIF_TMP"))
+    path = os.path.join(d, "out.tsv")
+    script = os.path.join(d, "session.py")
+    with open(script, "w") as fh:
+        fh.write(HASHSEED_SCRIPT)
+    subjects = ["a1", "b2", "c3", "d4"]
+    ctx.count("evaluations")
+    outs = []
+    for seed, kill in ((str(1 + i), 2), (str(101 + 7 * i), -1)):
+        env = dict(os.environ, PYTHONHASHSEED=seed, PYTHONPATH=pan.REPO, PANOPTICA_CITATION_REMINDER="false")
+        p = subprocess.run([harness.PY, "-B", script, path, json.dumps(subjects), str(kill)], env=env, capture_output=True, text=True, timeout=300, cwd=d)
+        outs.append((p.returncode, p.stderr[-600:]))
+    det = {"subjects": subjects, "hash_seeds": [1 + i, 101 + 7 * i], "exit": [o[0] for o in outs]}
+    feats = {"variant": "restart_in_new_interpreter_with_other_hash_seed"}
+    if outs[0][0] != 137 or outs[1][0] != 0:
+        ctx.viol("recovery_raised", dict(det, error=outs[1][1] if outs[1][0] != 0 else outs[0][1]), features=dict(feats, kind="recovery_raised"))
+        return
+    rows = read_rows(path)
+    ctx.count("C17.session_histories_judged")
+    ctx.count("C17.new_interpreter_restarts_judged")
+    ctx.nontrivial("hashseed", i)
+    names = [r[0] for r in rows[1:]]
+    if rows[0][0] != "subject_name" or any(r == rows[0] for r in rows[1:]):
+        ctx.viol("header_missing_or_not_first", dict(det, first_row=rows[0][:4]), features=dict(feats, kind="header_missing_or_not_first"))
+    elif sorted(names) != sorted(subjects):
+        ctx.viol("subject_missing_after_recovery" if len(names) < len(subjects) else "subject_duplicated_after_recovery", dict(det, rows=names), features=dict(feats, kind="rows"))
+    elif any(len(r) != len(rows[0]) for r in rows[1:]):
+        ctx.viol("row_differs_from_uninterrupted_run", dict(det, widths=[len(r) for r in rows]), features=dict(feats, kind="width"))
+    else:
+        # values of the rows written before and after the restart line up under the same header
+        st_env = dict(os.environ, PYTHONHASHSEED="0", PYTHONPATH=pan.REPO)
+        chk = subprocess.run([harness.PY, "-B", "-c", "import sys,json;from panoptica import Panoptica_Statistic as S;s=S.from_file(sys.argv[1]);print(json.dumps({n:{g:s.get_one_subject(n)[g]['num_ref_instances'] for g in s.groupnames} for n in s.subjectnames}))", path],
+                             env=st_env, capture_output=True, text=True, timeout=300)
+        try:
+            vals = json.loads(chk.stdout.strip().splitlines()[-1])
+            bad = {n: v for n, v in vals.items() if any(x != 1.0 for x in v.values())}
+            if bad:
+                ctx.viol("row_differs_from_uninterrupted_run", dict(det, num_ref_instances=bad), features=dict(feats, kind="values_under_wrong_group"))
+        except Exception:  # noqa: BLE001
+            ctx.viol("recovery_raised", dict(det, error=chk.stderr[-600:]), features=dict(feats, kind="loader"))
+
+
 def run(case, ctx):
     fam = case["fam"]
+    if fam == "hashseed":
+        return hashseed_sessions(ctx, case["i"])
     if fam == "crash":
         crash_enumeration(ctx, case["state"], case["variant"])
     elif fam == "sessions":
